@@ -27,6 +27,7 @@ import (
 	"time"
 
 	abci "github.com/tendermint/tendermint/abci/types"
+	"github.com/tendermint/tendermint/libs/log"
 
 	vs "github.com/ovrclk/akash/verifsupport"
 	atypes "github.com/ovrclk/akash/x/audit/types"
@@ -63,7 +64,13 @@ func vDetBytes(r abci.ResponseDeliverTx) []byte {
 func (m *vMonC07) AfterTx(h *vHist, o *vTxObs) {
 	if m.replicas == nil {
 		for i := 0; i < 2; i++ {
-			c := vNewChain(h.actorSeed, h.c.profile)
+			// the first replica is a node run with debug logging: every log
+			// line is rendered (the primary and the other replica drop them all)
+			lg := log.NewNopLogger()
+			if i == 0 {
+				lg = vVerboseLogger()
+			}
+			c := vNewChainLogging(h.actorSeed, h.c.profile, lg)
 			c.advance(1)
 			m.replicas = append(m.replicas, c)
 		}
